@@ -946,8 +946,63 @@ func evalCase(s *space, idx int, startBit int, careful bool, thorough bool, dead
 			}
 		}
 	}
+	// ---- C12.tamper, structural part: the signature value made longer or shorter with every
+	// enclosing length field adjusted (so that the packet stays a well-formed TLV). No validator may
+	// accept a signature value that is not the one the signer produced, whatever its length.
+	if hasValidator && lay.sigVal != nil && lay.sigVal.Parent == root && root.Start == 0 && root.End == n {
+		val := B[lay.sigVal.VStart:lay.sigVal.End]
+		type rz struct {
+			what string
+			val  []byte
+		}
+		var rzs []rz
+		rzs = append(rzs, rz{"one zero byte appended", append(append([]byte(nil), val...), 0)})
+		if len(val) > 0 {
+			rzs = append(rzs, rz{"its first byte appended", append(append([]byte(nil), val...), val[0])})
+			rzs = append(rzs, rz{"the value appended to itself", append(append([]byte(nil), val...), val...)})
+			rzs = append(rzs, rz{"last byte removed", append([]byte(nil), val[:len(val)-1]...)})
+			rzs = append(rzs, rz{"first byte removed", append([]byte(nil), val[1:]...)})
+		}
+		for _, r := range rzs {
+			inner := append([]byte(nil), B[root.VStart:lay.sigVal.Start]...)
+			inner = append(inner, varNum(lay.sigVal.Typ)...)
+			inner = append(inner, varNum(uint64(len(r.val)))...)
+			inner = append(inner, r.val...)
+			inner = append(inner, B[lay.sigVal.End:root.End]...)
+			t := append(varNum(root.Typ), varNum(uint64(len(inner)))...)
+			t = append(t, inner...)
+			cc.stat["signature_resizes"]++
+			o := decode(d.Interest, enc.NewBufferReader(t))
+			cc.stat["decodes"]++
+			if !o.ok {
+				cc.stat["resizes_rejected_by_decoder"]++
+				continue
+			}
+			cc.stat["validations"]++
+			if !validate(b.SignerSp, o) {
+				cc.stat["resizes_rejected_by_validator"]++
+				continue
+			}
+			cc.viol("C12.tamper", fmt.Sprintf("%s-signed %s: signature value with %s (lengths adjusted) is accepted", b.SignerSp.Family, kind(&d), r.what),
+				fmt.Sprintf("%s: SignatureValue of %d bytes replaced by %d bytes (%s), enclosing lengths adjusted: decodes and the %s validator accepts", fam, len(val), len(r.val), r.what, b.SignerSp.Family),
+				map[string]any{"resize": r.what})
+		}
+	}
 	emit(msg{T: "sample", S: fmt.Sprintf("%s => %d bytes, %s; covered bytes agree (encoder, signer, parser, segmentations); %d single-bit flips all rejected=%v",
 		cc.label, n, fam, cc.stat["bit_flips"], cc.stat["bit_flips"] == cc.stat["flips_rejected_by_decoder"]+cc.stat["flips_rejected_by_validator"]+cc.stat["flips_rejected_by_decoder_panic"])})
+}
+
+// varNum encodes an NDN variable-size number (shortest form).
+func varNum(v uint64) []byte {
+	switch {
+	case v < 253:
+		return []byte{byte(v)}
+	case v <= 0xffff:
+		return []byte{0xfd, byte(v >> 8), byte(v)}
+	case v <= 0xffffffff:
+		return []byte{0xfe, byte(v >> 24), byte(v >> 16), byte(v >> 8), byte(v)}
+	}
+	return []byte{0xff, byte(v >> 56), byte(v >> 48), byte(v >> 40), byte(v >> 32), byte(v >> 24), byte(v >> 16), byte(v >> 8), byte(v)}
 }
 
 // evalSweep: one case of the outer-length boundary sweep. The packet is built and signed until
@@ -1486,6 +1541,7 @@ func main() {
 			"delayed_verification": "each worker keeps ONE signer object per mode; the un-joined Wire of the previous packet a signer object signed is joined, decoded, compared with what the signer was handed and validated only after the same object signed the next packet",
 			"segmentation":         "C12.cover: every 1-cut (packets >1200 B: cuts within 2 bytes of element offsets), every 2-cut for packets <=100 B (thorough, <=1 deviation: <=400 B) else all pairs of element offsets, every 3-cut for packets <=56 B (thorough, <=1 deviation: <=112 B) else outer-header-end + every pair of element offsets (quick tier, deviated shapes: pairs at most 3 offsets apart)",
 			"tamper_decode_paths":  "every flipped packet is decoded from contiguous bytes and from 2 segments cut (a) in the middle and (b) right before the ApplicationParameters (Interest) / SignatureInfo (Data) element; accepted by any path counts as accepted",
+			"tamper_resize":        "for every packet with a validator: the signature value with one zero byte / its first byte / itself appended, and with its last / first byte removed, all enclosing TLV lengths adjusted (the title's 'verify iff untampered' beyond single-bit flips); must be rejected by the decoder or the validator",
 			"tamper":               "every bit of the signed portion, SignatureValue element, ApplicationParameters element and digest component when these total <=700 bytes; above: every bit of the bytes within 4 of an element boundary and one bit of every 251st (thorough, sha256/hmac/unsigned: 7th) other byte; P-521 (verification ~1 ms): quick tier base shapes only with bits 0 and 7 of every byte, thorough tier <=1-deviation shapes with every bit",
 		},
 	}
